@@ -8,7 +8,9 @@
    of per-face terms along each axis; the sum over the lattice telescopes to the boundary faces,
    whose pattern is empty. *)
 From Coq Require Import List ZArith NArith Lia Bool.
-From Sdfx Require Import Generated.MarchTables Render.Balance Render.MC.
+From Sdfx Require Import Generated.MarchTables.
+From Sdfx Require Import Render.Balance.
+From Sdfx Require Import Render.MC.
 Import ListNotations.
 Open Scope Z_scope.
 
